@@ -104,6 +104,8 @@ def correspond(ctx, corr, model_ok):
         corr.count('raw-byte injections', sc.raw_injected)
         corr.count('frame logging at DEBUG', 1 if sc.desc.get('debug_log') else 0)
         corr.count('fragmented', sc.fragmented)
+    corr.oracle_failures.extend(websocket_oracle())
+    corr.count('aiohttp websocket transports (server / client side) with garbage, empty, TEXT and PING messages', 2)
     corr.oracle_failures.extend(failing_responder_oracle())
     corr.count('failing library publishers / futures (factory, first step, later step)', 14)
     if model_ok:
@@ -135,6 +137,8 @@ def replay(obj):
     case = obj.get('case') or obj
     if 'responder_case' in case:
         return bool(failing_responder_oracle())
+    if 'websocket_case' in case:
+        return bool(websocket_oracle())
     runs, crashed = E.run_all([case['scenario']], post=probe)
     return bool(crashed) or any(oracle(sc) for sc in runs)
 
@@ -236,4 +240,115 @@ def failing_responder_oracle():
                 if not ok:
                     out.append({'what': 'failing-publisher-not-contained', 'responder_case': [kind, where, lenreq],
                                 'detail': repr(r)[:400]})
+    return out
+
+
+# ---------------------------------------------------------------------------------------------
+# the aiohttp websocket transports (server and client side) over a fake websocket object: binary garbage, empty messages and
+# NON-BINARY websocket messages (TEXT, PING ...) from the peer are ignored; requests around them are served
+
+def run_websocket(side):
+    import asyncio
+    from datetime import timedelta
+    import aiohttp
+    from rsocket.frame_builders import to_setup_frame, to_request_response_frame
+    from rsocket.helpers import create_response, single_transport_provider
+    from rsocket.payload import Payload
+    from rsocket.request_handler import BaseRequestHandler
+    from rsocket.rsocket_server import RSocketServer
+    from rsocket.rsocket_client import RSocketClient
+    from rsocket.transports.aiohttp_websocket import TransportAioHttpWebsocket, TransportAioHttpClient
+    from rsocket.frame import parse_or_ignore
+
+    class FakeWS:
+        def __init__(self):
+            self.inq = asyncio.Queue()
+            self.sent = []
+            self.closed = False
+
+        def __aiter__(self):
+            return self
+
+        async def __anext__(self):
+            m = await self.inq.get()
+            if m is None:
+                raise StopAsyncIteration
+            return m
+
+        async def send_bytes(self, data):
+            self.sent.append(bytes(data))
+
+        async def close(self, *a, **k):
+            self.closed = True
+
+        def binary(self, b):
+            self.inq.put_nowait(aiohttp.WSMessage(aiohttp.WSMsgType.BINARY, b, None))
+
+        def other(self, ty, data):
+            self.inq.put_nowait(aiohttp.WSMessage(ty, data, None))
+
+    class H(BaseRequestHandler):
+        async def request_response(self, payload):
+            return create_response(b'answer to ' + bytes(payload.data))
+
+    async def main():
+        ws = FakeWS()
+        res = {'answered': [], 'reader_alive': True}
+        if side == 'server':
+            t = TransportAioHttpWebsocket(ws)
+            ep = RSocketServer(t, handler_factory=H)
+            reader = asyncio.create_task(t.handle_incoming_ws_messages())
+            ws.binary(to_setup_frame(None, b'a/b', b'c/d', timedelta(seconds=30), timedelta(minutes=10)).serialize())
+            first = 1
+        else:
+            t = TransportAioHttpClient(websocket=ws)
+            ep = RSocketClient(single_transport_provider(t), handler_factory=H, keep_alive_period=timedelta(seconds=1000),
+                               max_lifetime_period=timedelta(seconds=5000))
+            await ep.connect()
+            reader = t._message_handler
+            first = 2
+
+        async def ask(sid, data):
+            ws.binary(to_request_response_frame(sid, Payload(data)).serialize())
+            for _ in range(60):
+                await asyncio.sleep(0)
+                for b in ws.sent:
+                    f = parse_or_ignore(b)
+                    if f is not None and f.stream_id == sid and type(f).__name__ == 'PayloadFrame':
+                        res['answered'].append(sid)
+                        return
+        await ask(first, b'one')
+        ws.binary(b'\\x00\\x01\\x02')
+        ws.binary(b'')
+        ws.binary(b'\\x00\\x00\\x00\\x05\\xfc\\x00garbage')
+        await ask(first + 2, b'two')
+        ws.other(aiohttp.WSMsgType.TEXT, 'hello, is this a chat server?')
+        await ask(first + 4, b'three')
+        ws.other(aiohttp.WSMsgType.PING, b'')
+        ws.other(aiohttp.WSMsgType.PONG, b'')
+        await ask(first + 6, b'four')
+        await asyncio.sleep(0)
+        res['reader_alive'] = not reader.done()
+        res['want'] = [first, first + 2, first + 4, first + 6]
+        ws.inq.put_nowait(None)
+        try:
+            await asyncio.wait_for(ep.close(), 1)
+        except Exception:
+            pass
+        return res
+    return asyncio.run(main())
+
+
+def websocket_oracle():
+    out = []
+    try:
+        import aiohttp      # noqa: F401
+    except ImportError:
+        return out
+    for side in ('server', 'client'):
+        r = run_websocket(side)
+        if r['answered'] != r['want'] or not r['reader_alive']:
+            out.append({'what': 'aiohttp websocket transport (%s side): requests answered %s of %s around garbage / empty / TEXT / PING '
+                                'messages; still reading: %s' % (side, r['answered'], r['want'], r['reader_alive']),
+                        'websocket_case': side})
     return out
